@@ -219,10 +219,11 @@ def props_for(m, reach):
 def run(in_path, out_path):
     surv = json.load(open(in_path))
     calls, defs = callgraph()
-    reach = {}
+    reach, wall = {}, {}
     for i in range(1, 21):
         pid = "C%02d" % i
         ev = json.load(open("/verif/evidence/%s.json" % pid))
+        wall[pid] = ev.get("wall_s", 10)
         start = set()
         for q in ev["coverage"].get("functions_analysed", []):
             start.add(q.split(":")[-1])
@@ -241,7 +242,7 @@ def run(in_path, out_path):
     tmp = tempfile.mkdtemp(prefix="vpauto_")
     try:
         roots = []
-        for i in range(4):
+        for i in range(5):
             d = os.path.join(tmp, "w%d" % i)
             os.makedirs(d)
             shutil.copytree(REPO + "/praatio", d + "/praatio", ignore=shutil.ignore_patterns("__pycache__"))
@@ -252,7 +253,7 @@ def run(in_path, out_path):
         def one(m):
             root = free.pop()
             try:
-                props = [p for p, fns in reach.items() if m["function"] in fns]
+                props = sorted((p for p, fns in reach.items() if m["function"] in fns), key=lambda p: wall[p])
                 m["properties"] = props
                 apply_to(root, m, blobs)
                 res = {}
@@ -260,6 +261,8 @@ def run(in_path, out_path):
                     r = subprocess.run(["/verif/vcheck", p], env=dict(os.environ, VP_REPO=root, VP_NO_EVIDENCE="1"), capture_output=True, text=True, cwd="/verif")
                     lines = [l for l in r.stdout.splitlines() if l.strip()]
                     res[p] = {"exit": r.returncode, "first": next((l.strip()[:300] for l in lines if "witness" in l or l.startswith("ANALYSIS-ERROR")), "")}
+                    if r.returncode == 1:
+                        break  # detected: the other properties are not needed for the question asked here
                 m["checks"] = res
                 m["detected"] = any(v["exit"] == 1 for v in res.values())
                 print("%s %s:%d %s -> %s" % ("DET " if m["detected"] else "MISS", m["function"], m["line"], m["what"], {p: v["exit"] for p, v in res.items()}), flush=True)
@@ -267,7 +270,7 @@ def run(in_path, out_path):
                 restore(root, m, blobs)
                 free.append(root)
             return m
-        with ThreadPoolExecutor(4) as ex:
+        with ThreadPoolExecutor(5) as ex:
             res = list(ex.map(one, surv))
     finally:
         shutil.rmtree(tmp, ignore_errors=True)
